@@ -78,7 +78,7 @@ def reference_scan(scores, m, b):
     return segs, breaks, eq
 
 
-def check(case):
+def check(case, factory=None):
     from src.alignment.alignment_position import AlignedPair
     from src.alignment.segments import EmptyAlignmentSegment
     from src.alignment.segments_factory import AlignmentSegmentsFactory
@@ -87,7 +87,8 @@ def check(case):
     kinds = case.get("kinds") or [0] * len(scores)
     positions = _objects(scores, kinds)
     peak = Peak(1234, 50.0)
-    factory = AlignmentSegmentsFactory(m, b)
+    if factory is None:
+        factory = AlignmentSegmentsFactory(m, b)
     segs = sut(factory.getSegments, positions, peak)
     exp, breaks, eq = reference_scan(scores, m, b)
     ident = {id(p): i for i, p in enumerate(positions)}
@@ -142,6 +143,31 @@ def check(case):
     return {"nontrivial": breaks >= 1 and eq >= 1,
             "classes": [f"segments={min(len(exp), 3)}", "m>b" if m > b else "m<=b",
                         "break" if breaks else "nobreak", "eq" if eq else "noeq"]}
+
+
+def check_history(case):
+    """one factory instance cuts several position lists in a row (one per seed peak, as Aligner uses it): every call
+    must satisfy the oracle on its own list"""
+    from src.alignment.segments_factory import AlignmentSegmentsFactory
+    factory = AlignmentSegmentsFactory(case["m"], case["b"])
+    nt = False
+    cl = set()
+    for scores, kinds in zip(case["lists"], case["kinds"]):
+        info = check({"scores": scores, "kinds": kinds, "m": case["m"], "b": case["b"]}, factory)
+        nt = nt or info["nontrivial"]
+        cl.update(info["classes"])
+    return {"nontrivial": nt and len(case["lists"]) >= 2, "classes": sorted(cl) + [f"lists={len(case['lists'])}"]}
+
+
+@st.composite
+def history_case(draw):
+    k = draw(st.integers(2, 4))
+    lists, kinds = [], []
+    for _ in range(k):
+        n = draw(st.integers(0, 10))
+        lists.append(draw(st.lists(st.integers(-4, 4), min_size=n, max_size=n)))
+        kinds.append(draw(st.lists(st.integers(0, 2), min_size=n, max_size=n)))
+    return {"lists": lists, "kinds": kinds, "m": draw(st.integers(1, 6)), "b": draw(st.integers(0, 7))}
 
 
 def check_float(case):
@@ -255,6 +281,8 @@ def subchecks(tier):
             describe="length<=200, scores sp-dp*d / su, CLI-range thresholds", shrink_budget=2000),
         Sub("float-scores", "hyp", check_float, strategy=float_case, examples=20000 if q else 400000, shrink_budget=1500,
             describe="inexact float scores with zero penalties: rounding-independent clauses only", required_classes=("has-zero-score",)),
+        Sub("factory-history", "hyp", check_history, strategy=history_case, examples=16000 if q else 300000, shrink_budget=1500,
+            describe="one factory instance reused for 2-4 position lists"),
         Sub("small-atheris", "fuzz", check, strategy=small_random_case, fuzz_runs=2000 if q else 150000,
             describe="coverage-guided (atheris/libFuzzer) search over the bytes behind the small-random generator, same oracle"),
     ]
